@@ -10,11 +10,15 @@ handles - the push queue does not dispatch the connection again before.
 namespace IstioModel.C04
 
 inductive LEv
-  | req (answers fails : Bool)     -- a request is handed over: it is answered or not, or its handling fails
+  /-- A request is handed over: it is answered or not, or its handling fails.  `second`: which of the two copies of
+      the request arm takes it - the polling `select` at the top of the loop (the loop was busy when the request came)
+      or the blocking one (the loop was waiting). -/
+  | req (second : Bool) (answers fails : Bool)
   | push (answers fails : Bool)    -- a push event
   | eof                            -- the client closed the stream
   | recvErr                        -- the transport broke
   | ctxDone                        -- the stream's context is cancelled (what was handed over before is still handled)
+  | stop                           -- the connection is stopped from outside (`con.stop`)
   deriving DecidableEq, Repr
 
 structure LOut where
@@ -29,31 +33,32 @@ def LOut.more (o : LOut) (r p : Nat) : LOut := { o with responses := o.responses
 /-- The loop over the events, in order. -/
 def streamLoop : List LEv → LOut
   | [] => {}
-  | .req a f :: es => if f then { ended := true, error := true } else (streamLoop es).more (if a then 1 else 0) 0
+  | .req _ a f :: es => if f then { ended := true, error := true } else (streamLoop es).more (if a then 1 else 0) 0
   | .push a f :: es =>
     -- `done` is called whether or not the push succeeded
     if f then { pushesDone := 1, ended := true, error := true } else (streamLoop es).more (if a then 1 else 0) 1
   | .eof :: _ => { ended := true }
   | .recvErr :: _ => { ended := true, error := true }
   | .ctxDone :: _ => { ended := true }
+  | .stop :: _ => { ended := true }
 
 /-- No terminal event. -/
 def LEv.goesOn : LEv → Bool
-  | .req _ f => !f
+  | .req _ _ f => !f
   | .push _ f => !f
   | _ => false
 
 /-- **A failing request ends the stream**: whatever follows it is never handled - the outcome does not depend on it. -/
-theorem failing_request_ends_the_stream (pre post : List LEv) (a : Bool) (hpre : ∀ e ∈ pre, e.goesOn = true) :
-    streamLoop (pre ++ .req a true :: post) = streamLoop (pre ++ [.req a true]) ∧
-    (streamLoop (pre ++ .req a true :: post)).ended = true ∧ (streamLoop (pre ++ .req a true :: post)).error = true := by
+theorem failing_request_ends_the_stream (pre post : List LEv) (arm a : Bool) (hpre : ∀ e ∈ pre, e.goesOn = true) :
+    streamLoop (pre ++ .req arm a true :: post) = streamLoop (pre ++ [.req arm a true]) ∧
+    (streamLoop (pre ++ .req arm a true :: post)).ended = true ∧ (streamLoop (pre ++ .req arm a true :: post)).error = true := by
   induction pre with
   | nil => simp [streamLoop]
   | cons e es ih =>
     have h := ih (fun x hx => hpre x (by simp [hx]))
     have he := hpre e (by simp)
     cases e with
-    | req a' f =>
+    | req arm' a' f =>
       simp only [LEv.goesOn, Bool.not_eq_true'] at he; subst he
       obtain ⟨h1, h2, h3⟩ := h
       simp only [List.cons_append, streamLoop, Bool.false_eq_true, if_false, LOut.more, h1]
@@ -68,6 +73,7 @@ theorem failing_request_ends_the_stream (pre post : List LEv) (a : Bool) (hpre :
     | eof => simp [LEv.goesOn] at he
     | recvErr => simp [LEv.goesOn] at he
     | ctxDone => simp [LEv.goesOn] at he
+    | stop => simp [LEv.goesOn] at he
 
 /-- **Every push that is handled is marked done**, so the queue can dispatch the connection again. -/
 theorem every_push_done (es : List LEv) (h : ∀ e ∈ es, e.goesOn = true) :
@@ -79,18 +85,64 @@ theorem every_push_done (es : List LEv) (h : ∀ e ∈ es, e.goesOn = true) :
     have h' := ih (fun x hx => h x (by simp [hx]))
     have he := h e (by simp)
     cases e with
-    | req a f => simp only [LEv.goesOn, Bool.not_eq_true'] at he; subst he; simp [streamLoop, LOut.more, h']
+    | req arm a f => simp only [LEv.goesOn, Bool.not_eq_true'] at he; subst he; simp [streamLoop, LOut.more, h']
     | push a f => simp only [LEv.goesOn, Bool.not_eq_true'] at he; subst he; simp [streamLoop, LOut.more, h']
     | eof => simp [LEv.goesOn] at he
     | recvErr => simp [LEv.goesOn] at he
     | ctxDone => simp [LEv.goesOn] at he
+    | stop => simp [LEv.goesOn] at he
 
-/-- The scenarios of stream `sloop`. -/
+/-- The other copy of the request arm. -/
+def LEv.otherArm : LEv → LEv
+  | .req second a f => .req (!second) a f
+  | e => e
+
+/-- **The two copies of the request arm behave alike**: which of them takes a request - i.e. whether the loop was
+    busy or waiting when it came - makes no difference to what the stream does (in particular a failing request ends
+    the stream from either).  The real loops are held to this by the scenarios `process-error-idle` / `-busy`. -/
+theorem arms_alike (es : List LEv) (g : LEv → LEv) (hg : ∀ e, g e = e ∨ g e = e.otherArm) :
+    streamLoop (es.map g) = streamLoop es := by
+  induction es with
+  | nil => rfl
+  | cons e es ih =>
+    simp only [List.map_cons]
+    rcases hg e with h | h
+    · rw [h]; cases e <;> simp [streamLoop, ih]
+    · rw [h]; cases e <;> simp [streamLoop, LEv.otherArm, ih]
+
+/-- A push is marked done also when handling it fails (`pushEv.done()` runs before the error is returned). -/
+theorem failing_push_done (pre post : List LEv) (a : Bool) (hpre : ∀ e ∈ pre, e.goesOn = true) :
+    (streamLoop (pre ++ .push a true :: post)).pushesDone =
+      (pre.filter (fun e => match e with | .push _ _ => true | _ => false)).length + 1 ∧
+    (streamLoop (pre ++ .push a true :: post)).error = true := by
+  induction pre with
+  | nil => simp [streamLoop]
+  | cons e es ih =>
+    have h := ih (fun x hx => hpre x (by simp [hx]))
+    have he := hpre e (by simp)
+    cases e with
+    | req arm a' f => simp only [LEv.goesOn, Bool.not_eq_true'] at he; subst he; simp [streamLoop, LOut.more, h]
+    | push a' f => simp only [LEv.goesOn, Bool.not_eq_true'] at he; subst he; simp [streamLoop, LOut.more, h]
+    | eof => simp [LEv.goesOn] at he
+    | recvErr => simp [LEv.goesOn] at he
+    | ctxDone => simp [LEv.goesOn] at he
+    | stop => simp [LEv.goesOn] at he
+
+/-- The scenarios of stream `sloop` (a refused first request and a failed send are failing requests). -/
 def scenario : String → List LEv
-  | "process-error" => [.req true false, .req false false, .req false true, .req true false]
-  | "pushes" => [.req true false, .req false false, .push true false, .req false false, .push true false, .req false false]
-  | "ctx-done" => [.req true false, .req false false, .ctxDone, .req true false]
-  | "eof" => [.req true false, .req false false, .eof]
+  | "process-error-idle" => [.req false true false, .req false false false, .req true false true, .req false true false]
+  | "process-error-busy" => [.req false true false, .req false false true, .req false true false]
+  | "no-node" => [.recvErr, .req false true false]
+  | "transport-error" => [.req false true false, .recvErr]
+  | "send-fails" => [.req false false true]
+  | "stop" => [.req false true false, .stop, .req false true false]
+  -- (the forced push reaches two watched types: one `push` event each)
+  | "exchange" => [.req false true false, .req false false false, .req false false false, .req false true false,
+                   .push true false, .push true false, .req true false false, .eof]
+  | "pushes" => [.req false true false, .req false false false, .push true false, .req false false false, .push true false,
+                 .req false false false]
+  | "ctx-done" => [.req false true false, .req false false false, .ctxDone, .req false true false]
+  | "eof" => [.req false true false, .req false false false, .eof]
   | _ => []
 
 end IstioModel.C04
